@@ -844,6 +844,20 @@ func genRelayCase(w *wire.World, g *sip.Gen, i int, prop string) *relayCase {
 			if sv.HasDef {
 				to = "<tel:+15550199>" // a SIP To would hit the default static route first
 			}
+			// the Request-URI may also designate the receiving listener's own address, with or
+			// without the (default) port
+			myPort := sv.UDP
+			if c.path.Proto == "tcp" {
+				myPort = sv.TCP
+			}
+			if g.R.Intn(5) == 0 {
+				if myPort == 5060 && g.R.Intn(2) == 0 {
+					ruri = fmt.Sprintf("sip:%s@%s", g.Alnum(1, 6), sv.IP)
+				} else {
+					ruri = fmt.Sprintf("sip:%s@%s:%d", g.Alnum(1, 6), sv.IP, myPort)
+				}
+				sig = append(sig, "ruri:listener-address")
+			}
 		case "static":
 			switch g.R.Intn(4) {
 			case 0:
